@@ -1530,6 +1530,24 @@ void KillCtrl(char* Line) {
     } while (*z != '\0');
 }
 
+/* same on a dynamic string: every tab may grow into up to eight blanks, make
+   room for that first */
+
+void KillCtrlDyn(as_dynstr_t* p_str) {
+    size_t      Need = 1;
+    char const* z;
+
+    for (z = p_str->p_str; *z; z++) {
+        Need += (*z == Char_HT) ? 8 : 1;
+    }
+    if (Need > p_str->capacity) {
+        as_dynstr_realloc(p_str, as_dynstr_roundup_len(Need));
+    }
+    if (Need <= p_str->capacity) {
+        KillCtrl(p_str->p_str);
+    }
+}
+
 /****************************************************************************/
 /* Buchhaltung */
 
